@@ -21,7 +21,14 @@ EXTENDS Naturals, Sequences, FiniteSets, TLC, Json
 CONSTANT Dev
 
 Levels == 1..3
-Spellings == {"cwd", "dir_abs", "dir_dot", "dir_dotdot", "dir_child", "ergo_abs", "ergo_rel"}
+\* "*_link": the start directory is entered through a symbolic link that lives in
+\* ANOTHER project (which has its own store, level 9).  "Enclosing" can then be read
+\* along the path as spelled (the shell's $PWD: level 9) or along the physical
+\* location; the property does not choose, so the model admits both readings - but
+\* every spelling and every command must follow the SAME one.
+Spellings == {"cwd", "dir_abs", "dir_dot", "dir_dotdot", "dir_child", "ergo_abs", "ergo_rel",
+              "cwd_link", "dir_dot_link", "dir_abs_link"}
+ViaLink(c) == c.spell \in {"cwd_link", "dir_dot_link", "dir_abs_link"}
 Presence == {"no", "empty", "full"}      \* a log file: absent, present but empty, holding items
 FileSets == {[plans |-> p, events |-> e, lock |-> l] : p \in Presence, e \in Presence, l \in BOOLEAN}
 
@@ -38,7 +45,10 @@ Exists(c) ==
 Below(c, l) == {x \in c.stores : x <= l}
 MaxOf(S) == CHOOSE m \in S : \A x \in S : x <= m
 \* the level of the store a command started at c.start must use (0 = none)
-Resolve(c) == IF Below(c, c.start) = {} THEN 0 ELSE MaxOf(Below(c, c.start))
+Physical(c) == IF Below(c, c.start) = {} THEN 0 ELSE MaxOf(Below(c, c.start))
+Logical(c) == IF c.start \in c.stores THEN c.start ELSE 9
+Resolve(c) == IF ViaLink(c) THEN Logical(c) ELSE Physical(c)
+LinkCands(c) == {Logical(c), Physical(c)} \ {0}
 
 \* what the code does today with a relative --dir: "." never walks up; ".."
 \* looks at the parent, then at the directory the process stands in (downward!)
@@ -66,22 +76,28 @@ RealLayouts == {c \in Layouts : Exists(c)}
 (*   lock_after   the resolved store has a lock file after the commands    *)
 (*   init         [exit, changed_existing, same_items]                     *)
 (***************************************************************************)
+(*   link_wheres  (link layouts) what `where` names under each link spelling *)
 Pairs(s) == {<<s[k][1], s[k][2]>> : k \in DOMAIN s}
-C18_where(r) == r.where = Resolve(r.cfg)
+\* the store the commands of this case must use
+Must(r) == IF ViaLink(r.cfg) THEN r.where ELSE Resolve(r.cfg)
+C18_where(r) == IF ViaLink(r.cfg)
+                  THEN /\ r.where \in LinkCands(r.cfg)
+                       /\ \A k \in DOMAIN r.link_wheres : r.link_wheres[k] = r.where
+                  ELSE r.where = Resolve(r.cfg)
 C18_same_store(r) ==
   \A k \in DOMAIN r.cmds :
-     LET c == r.cmds[k] lvl == Resolve(r.cfg) IN
+     LET c == r.cmds[k] lvl == Must(r) IN
        IF lvl = 0 THEN c.exit # 0 /\ Pairs(c.touched) = {}
        ELSE /\ \A t \in Pairs(c.touched) : t[1] = lvl /\ t[2] \in {LogFile(r.cfg), "lock", "tmp"}
             /\ \A t \in Pairs(c.saw) : t = <<lvl, LogFile(r.cfg)>>
 C18_lands(r) ==
   \A k \in DOMAIN r.cmds :
      LET c == r.cmds[k] IN
-       (Resolve(r.cfg) # 0 /\ c.mutating /\ c.exit = 0) => <<Resolve(r.cfg), LogFile(r.cfg)>> \in Pairs(c.touched)
+       (Must(r) # 0 /\ c.mutating /\ c.exit = 0) => <<Must(r), LogFile(r.cfg)>> \in Pairs(c.touched)
 C18_reads_work(r) ==
   \A k \in DOMAIN r.cmds :
-     LET c == r.cmds[k] IN (Resolve(r.cfg) # 0 /\ ~c.mutating) => c.exit = 0
-C18_lock(r) == Resolve(r.cfg) # 0 => r.lock_after
+     LET c == r.cmds[k] IN (Must(r) # 0 /\ ~c.mutating) => c.exit = 0
+C18_lock(r) == Must(r) # 0 => r.lock_after
 C18_init(r) == r.init.ran => (r.init.exit = 0 /\ ~r.init.changed_existing /\ r.init.same_items)
 
 EmitLayouts == PrintT("@ST " \o ToJson(RealLayouts))
